@@ -1262,6 +1262,11 @@ static int upipe_blit_control_real(struct upipe *upipe,
             if (urequest->type == UREQUEST_FLOW_FORMAT)
                 return upipe_blit_register_flow_format_provider(
                     upipe, urequest);
+            /* the answer to a ubuf manager request is what the probes
+             * answered: UBASE_ERR_UNHANDLED must not pass the request on to
+             * the output helper */
+            if (urequest->type == UREQUEST_UBUF_MGR)
+                return upipe_blit_control_ubuf_mgr(upipe, command, args);
             break;
         }
 
